@@ -79,6 +79,13 @@ def gen_cases(rng, tier):
                 if rng.random() < 0.25:
                     margin = rng.choice(sc.LATTICE) if stream in ("lattice", "exact") else 10 ** rng.uniform(-2, 1)
                 cases.append(dict(shape=sh, margin=margin))
+    for c in cases:
+        k = c["shape"]["kind"]
+        if k not in ("mesh",) and rng.random() < 0.5:
+            sh2 = sc.gen_shape(rng, k, "random")
+            if k == "hull":
+                sh2["vs"] = [[1.5 * x + 0.25 for x in v] for v in c["shape"]["vs"]]
+            c["shape2"] = sh2
     # axes within 1e-3 .. 1e-8 rad of a coordinate axis: sqrt(1 - a*a) ~ angle, far above the tolerance
     for kind in ("cylinder", "cone", "disk", "capsule", "ellipse", "box", "mesh"):
         for _ in range(max(3, per // 3)):
@@ -165,6 +172,10 @@ def judge_case(case, r):
     L = sc.shape_L(sh, case["margin"] or 0.0)
     site = f"{sh['kind']}_aabb"
     out += [(site + ".state", m) for m in (r.get("modified") or [])]
+    ip = r.get("inplace")
+    if isinstance(ip, dict) and ip.get("same") is False:
+        out.append((site + ".state", f"containment.{site}: after overwriting the argument arrays IN PLACE with another {sh['kind']} (shape2 of the "
+                                     f"replay) the same array objects give {ip['got']}, fresh arrays with the same values give {ip['want']}"))
     name = f"{sh['kind'].capitalize()}.aabb()" if case["margin"] is None else f"Margin({sh['kind'].capitalize()}).aabb()"
     out += [(site, f) for f in judge_box(sh, case["margin"], r["aabb"], r, L, name)]
     if "free" in r:
